@@ -14,9 +14,9 @@ CHECKS = {
    note="Same trusted base as C01; brute force is the reference for 'all stable matchings' in the search for failing inputs.",
    technique="Lean 4 proof (invariant 'no achievable partner rejects') + differential correspondence"),
  "C04": dict(level="translation_validation", design="6/C04",
-   text="scipy's solver is not modelled; every output is certified: exact rational Hungarian potentials from the harness are checked by the Lean-executable assignCertOk (sound by LP weak duality, C04_cert_sound), raises are certified by a Hall violator (hallCertOk_sound); each call runs under a deadline.",
+   text="scipy's solver is not modelled; every output is certified: exact rational Hungarian potentials from the harness are checked by the Lean-executable assignCertOk (sound by LP weak duality, C04_cert_sound), raises are certified by a Hall violator (hallCertOk_sound); for n <= 7 the value of the returned assignment must in addition equal the model's own brute-force optimum optAssign, which is PROVED to be the maximum over all acceptable permutations (C04_optAssign_spec, C04_brute_optimal, consistent with the certificate route: C04_cert_value_eq_opt), and the code must raise exactly when optAssign is infeasible; each call runs under a deadline.",
    note="Trusted: Lean kernel/axioms as above, the certificate checkers' soundness theorems, the harness's Hungarian only as a certificate producer.",
-   technique="Lean-proved certificate checkers (LP duality, Hall) applied to every output"),
+   technique="Lean-proved certificate checkers (LP duality, Hall) applied to every output + Lean-proved brute-force specification (n <= 7)"),
  "C05": dict(level="proof", design="6/C05",
    text="Lean theorems about an exact event-driven model mirroring the Python loop (termination within 2n events, bistochastic, the event-sum characterisation of the eating process, sd-envy-freeness for equal speeds); correspondence: float matrix within 1e-7 of the exact model on every case.",
    note="numpy float rounding and the two 1e-9 clamps are outside the model and covered by the property's 1e-7 tolerance.",
@@ -26,16 +26,16 @@ CHECKS = {
    note="Float residue on non-dyadic inputs is judged by the property's 1e-6 tolerances; the matching oracle is C09's.",
    technique="Lean 4 proof (Hall + balanced-step invariant) + exact replay correspondence"),
  "C07": dict(level="proof", design="6/C07",
-   text="Lean theorems: rsd is injective, acceptable, exactly the serial-dictatorship outcome for every picking order; lottery permutations lie in the support. Correspondence: recorded numpy shuffle order replayed through the model; lottery draw intercepted and checked against the exact eating matrix. One known finding (eating over NaN) is recorded, not repaired.",
+   text="Lean theorems: rsd is injective, acceptable, exactly the serial-dictatorship outcome for every picking order; lottery permutations lie in the support; C07_lottery_end_to_end for complete profiles. The eating process on INCOMPLETE profiles is modelled as the code really behaves (Eat.eatInc): C07_incomplete_counterexample is the recorded known finding as a kernel-checked theorem, C07_incomplete_unavoidable_hall / C07_bistochastic_hall show no bistochastic outcome can avoid it, C07_acceptable_partial is what does hold. Correspondence: recorded numpy shuffle order replayed through the model; lottery draw intercepted and checked against the exact eating matrix; bistochastic on incomplete profiles equals the mirror within 1e-7 with unacceptable shares exactly where the mirror has them. One known finding (eating over NaN) is recorded, not repaired.",
    note="Random draws are observed by seeding and wrapping numpy.random.shuffle/choice.",
    technique="Lean 4 proof for every order/draw + replay of recorded random choices"),
  "C08": dict(level="proof", design="6/C08",
    text="Lean theorems: the executable max-flow model is total (C08_ff_total) and returns a maximum flow and the least minimum cut; flowCutOk is a sound certificate checker. Correspondence: value and cut set equal the model's, the flow dict passes flowCutOk, independent Edmonds-Karp oracle, deadline-supervised calls.",
-   note="The code's dfs_path is not mirrored: the model uses its own search; the tie is through the canonical observables (value, least min cut) and the certificate.",
+   note="Two models: the abstract ff (own proved-total search; tie through value, least min cut and the flowCutOk certificate, used by the quick tier so that a harmless rewrite of the search breaks nothing) and the faithful mirror of the code's dfs_path/ford_fulkerson (Dfs.ffDfs: sound, complete, refines ff's augmentation step, terminates; compared path by path in the thorough tier and on the corpus). The helper functions reachable_vertices / flow_across_network / capacity_across_cut are modelled and proved (C08Helpers) and compared as glue (reported, no verdict).",
    technique="Lean 4 proof (max-flow/min-cut duality, totality) + certificate check of every output"),
  "C09": dict(level="proof", design="6/C09",
    text="Lean theorems: mcm returns a maximum matching (C09_mcm_correct), koenigCertOk is sound. Correspondence: matching size equals the model's; the implementation's matching with a Koenig cover passes the Lean checker; independent augmenting-path oracle.",
-   note="As C08.", technique="Lean 4 proof via C08 + Koenig certificate check of every output"),
+   note="As C08; convert_bipartite_graph_to_flow_network and positivity_graph are modelled and proved (C09Helpers) and compared as glue.", technique="Lean 4 proof via C08 + Koenig certificate check of every output"),
  "C10": dict(level="proof", design="6/C10",
    text="Lean theorems: winners characterisation, ranking validity, score formulas and cross-rule laws. Correspondence: scores/winners/rankings of every rule equal the model's (exact for integer rules, 1e-12 for Harmonic/utilitarian) plus textbook oracles in exact arithmetic.",
    note="Float Harmonic/utilitarian scores compared at relative 1e-12.", technique="Lean 4 proof + differential correspondence"),
@@ -51,7 +51,7 @@ CHECKS = {
    note="Index-shift theorems are proved for the voting models; for the other rules the shift is checked on the real code only (stated in DESIGN.md).",
    technique="Lean 4 proof + differential / metamorphic correspondence"),
  "C03": dict(level="translation_validation", design="6/C03",
-   text="Irving's rotation algorithm is not modelled; every output is certified: stability by the Lean-executable stableB, optimality by an LP-dual certificate over the Vande Vate/Rothblum stability inequalities found by z3 and checked by the Lean-executable smCertOk (C03_cert_sound: accepted => stable and no stable matching is heavier, any n). Brute force / per-block optima are the search for failing inputs. The elimination layer (eliminate, rotationWeight, closure) is modelled and proved.",
+   text="Every output is certified and, for n <= 7, compared with the model's brute-force optimum optStable (PROVED to be the maximum over all stable permutations: C03_optStable_spec, C03_brute_optimal; value computed inside the model, no Python arithmetic, no z3). Irving's algorithm is mirrored executably stage by stage (IrvingAlgo: C03_irving_sound - whatever the mirror returns is a perfect stable matching; C03_closedSubset_max by Picard's reduction from C08) and the implementation's final answer and every internal stage must equal the mirror's; the closed-subset stage is also driven directly on random rotation posets. Not proved: that the discovered rotations form the Irving-Leather-Gusfield lattice, hence optimality of the algorithm itself - that stays certified per output: stability by the Lean-executable stableB, optimality by an LP-dual certificate over the Vande Vate/Rothblum stability inequalities found by z3 and checked by the Lean-executable smCertOk (C03_cert_sound: accepted => stable and no stable matching is heavier, any n). Brute force / per-block optima are the search for failing inputs. The elimination layer (eliminate, rotationWeight, closure) is modelled and proved.",
    note="z3 only finds certificates (never trusted); existence of certificates (integrality of the stable-matching polytope) is not proved and not needed.",
    technique="Lean-proved certificate checker (LP weak duality over stability inequalities) applied to every output"),
  "C14": dict(level="proof", design="6/C14",
@@ -67,16 +67,16 @@ CHECKS = {
    technique="Lean 4 proof + end-to-end exact-arithmetic check of the guarantee"),
  "C17": dict(level="translation_validation", design="6/C17",
    text="Composition of the two-sided fill (Lean model simulate2, proved: C14_two_sided, dtsf_sim_int) with Irving certified per output as in C03, with the simulated integer valuations as weights.",
-   note="As C03.", technique="Lean-proved certificate checker applied to every output + model correspondence of the simulated profiles"),
+   note="As C03 (incl. the brute-force optimum optStable for n <= 7 with the simulated weights: C17_brute_optimal).", technique="Lean-proved certificate checker + Lean-proved brute-force specification (n <= 7) applied to every output + model correspondence of the simulated profiles"),
  "C18": dict(level="proof", design="6/C18",
-   text="Lean theorems: relation checkers (ordinalOkB, strictifyOkB, completeOkB) sound and complete w.r.t. the property clauses for every admissible sort/shuffle order; generator spec; consistency predicate accepts/rejects. Correspondence: every output row goes through the checkers; generator outputs equal generateRow on the re-drawn draws; predicate equals the model's.",
+   text="Lean theorems: relation checkers (ordinalOkB, strictifyOkB / strictOkB, completeOkB) sound and complete w.r.t. the property clauses for every admissible sort/shuffle order; tie breaking for EVERY numbering of the ties (C18_ties_general; the pinned code violated it on dense numberings: defect F14, fixed); generator spec; consistency predicate accepts/rejects. Correspondence: every output row goes through the checkers; generator outputs equal generateRow on the re-drawn draws; predicate equals the model's.",
    note="Orders chosen by numpy among ties/NaNs are treated as arbitrary.", technique="Lean 4 proof of relation checkers + checker run on every output"),
  "C19": dict(level="proof", design="6/C19",
    text="Lean theorems about convRows on abstract instances (row count/multiplicities, rank per tie mode, unlisted = NaN, wrong type rejected). Correspondence: instances written in PrefLib syntax, parsed by preflibtools, converted by the real code, compared with the model (equality for accept/first, checker for random).",
    note="preflibtools' parser is trusted.", technique="Lean 4 proof + differential correspondence"),
  "C20": dict(level="other", design="6/C20",
-   text="Correspondence-only: every public entry point (enumerated from the modules) is called on random valid arguments with bit-exact before/after snapshots, and on int32/int64/float64 encodings of the same complete profiles. A pure functional model cannot mutate and has no dtypes, so no theorem is claimed.",
-   note="Exempted in-out helpers are listed in harness/c20.py.", technique="exhaustive entry-point enumeration with bit-exact argument snapshots (no proof content)"),
+   text="Mutation clause: correspondence-only (a pure functional model cannot mutate): every public entry point (enumerated from the modules) is called on random valid arguments with bit-exact before/after snapshots, and on int32/int64/float64 encodings of the same complete profiles. 'Raises in exactly the same cases' clause: the library's validators and parameter checks are modelled in Lean (Validate.lean, 58 theorems C20_*: acceptance characterisations, class-flag table, dtype-freeness of every constructor but IntegerValuationProfile, every well-formed instance of the property theorems is accepted, proved witnesses that the converse fails); about 25 000 validator calls per quick run on valid and malformed arguments in every storage type that can hold the numbers - the verdicts must coincide across storage types (the property) and are compared with the model (reported as model coverage).",
+   note="Exempted in-out helpers are listed in harness/c20.py. Level 'other' because the mutation clause has no theorem.", technique="exhaustive entry-point enumeration with bit-exact argument snapshots + Lean model of the validators for the dtype clause"),
 }
 
 PENDING_REASON = "check not built yet in this snapshot of /verif (work in progress; see DESIGN.md section 9)"
@@ -109,7 +109,7 @@ def main():
                      "serves_properties": [c["property_id"] for c in checks],
                      "kind_free_text": "Lean 4 theorems about executable models (lean/Sck) + line-protocol driver + Python differential harness (harness/)"}],
         "checks": checks,
-        "notes": "See DESIGN.md. Repairs of genuine defects are 'fix:' commits in /repo, listed in known_findings.json.",
+        "notes": "See DESIGN.md (sections 10-14 describe the framework as built). Repairs of genuine defects are 'fix:' commits in /repo, listed in known_findings.json. Correspondences of functions outside the property statements (validators, helper functions) are reported in the evidence under glue_correspondences and never produce a VIOLATION.",
         "not_applicable": [{"property_id": p, "reason": PENDING_REASON} for p in ALL if p not in CHECKS],
     }
     json.dump(man, open(os.path.join(HERE, "MANIFEST.json"), "w"), indent=1)
